@@ -22,7 +22,7 @@
                        `C08_lex_counterexample`: false right after a skip-index commit (the engine is
                        detached while the records are applied) — and the stale document survives later
                        plain commits
-  D. search loops      with the status test of /verif/fixes/C10.diff no lexical search path reports an
+  D. search loops      with the status test of repo commit f3f305c (= /verif/fixes/C10.diff) no lexical search path reports an
                        inactive frame WHATEVER the engine answers (`C08_search_repaired`); without it the
                        claim needs C (`C08_search_current_partial`) and fails otherwise
                        (`C08_search_current_counterexample`)
